@@ -174,6 +174,38 @@ def run(ck):
                 out = r.run(Config, [src])
                 ck.count(1, distinct=(name, 'variable-attrs', cname))
                 check_outcome(ck, f'Config({name} via {cname})', name, 'stream-mapping', cname, out, want)
+    # Config built from Call objects / another Config / a list of ContextConfigs: same calls
+    base_src = {'contexts': [ctx_dict(c) for c in logical_configs()['two-contexts']]}
+    want = expected_calls(logical_configs()['two-contexts'], 'contexts')
+    o0 = r.run(Config, [base_src])
+    if o0.kind == 'return':
+        calls = list(o0.value.attrs['_calls'])
+        for nm, src in (('list of Calls', calls), ('tuple of Calls', tuple(calls)), ('another Config', o0.value), ('single Call', calls[0])):
+            out = r.run(Config, [src])
+            w = want if nm != 'single Call' else None
+            if out.kind == 'return' and w is None:
+                ok = len(out.value.attrs['_calls']) == 1 and out.value.attrs['_calls'][0] is calls[0]
+                ck.ob('C07.calls', f'Config({nm})', ok, key='Config:from-single-call', what='Config(<Call>) does not hold exactly that call')
+            else:
+                check_outcome(ck, f'Config({nm})', 'from-calls', nm, nm, out, w)
+    # regions: feature-collection GeoJSON, an already built GeometryCollection; window given as a TimeWindow instance
+    gr = {'fail_span': [0, 10]}
+    geom = {'type': 'Point', 'coordinates': [1, 2]}
+    fc = {'type': 'FeatureCollection', 'features': [{'type': 'Feature', 'geometry': geom}, {'type': 'Feature', 'geometry': {'type': 'Point', 'coordinates': [3, 4]}}]}
+    tw = r.interp.module('ioos_qc.config').globals['tw']
+    from ..models_io import GeometryCollection, Geometry
+    variants = [
+        ('feature-collection region', {'region': fc, 'streams': {'temp': {'qartod': {'gross_range_test': gr}}}},
+         [('temp', 'qartod', 'gross_range_test', freeze(gr), (None, None), repr([geom, {'type': 'Point', 'coordinates': [3, 4]}]))]),
+        ('GeometryCollection region', {'region': GeometryCollection([Geometry(geom)]), 'streams': {'temp': {'qartod': {'gross_range_test': gr}}}},
+         [('temp', 'qartod', 'gross_range_test', freeze(gr), (None, None), repr([geom]))]),
+        ('TimeWindow instance', {'window': tw(starting=100, ending=200), 'streams': {'temp': {'qartod': {'gross_range_test': gr}}}},
+         [('temp', 'qartod', 'gross_range_test', freeze(gr), (100, 200), None)]),
+        ('unparsable region ignored', {'region': {'type': 'nonsense'}, 'streams': {'temp': {'qartod': {'gross_range_test': gr}}}},
+         [('temp', 'qartod', 'gross_range_test', freeze(gr), (None, None), None)]),
+    ]
+    for nm, src, w in variants:
+        check_outcome(ck, f'Config({nm})', 'variant', nm, 'dict', r.run(Config, [src]), sorted(w, key=repr))
     # the default stream key is the constructor's parameter
     out = r.run(Config, [{'qartod': {'gross_range_test': {'fail_span': [0, 10]}}}], dict(default_stream_key='mystream'))
     ok = out.kind == 'return' and [c[0] for c in actual_calls(ck, out.value)] == ['mystream']
